@@ -71,6 +71,14 @@ def run(ctx):
     for r in runs:
         if r.error is None:
             audit(r, f"{r.cfg['seed']}")
+    # single-precision populations: the same recomputation with float32 tolerances (not replayed through the binary64 model)
+    for cfg in sb.f32_cfgs(ctx, ctx.scale(12, 60)):
+        r = sr.do_run(cfg)
+        ctx.count(sb.cfg_key(cfg), r.error is None and r.history is not None and len(r.history.beta) >= 2, kind=f"float32/{cfg['kind']}/{cfg['ns']}")
+        if r.error is not None:
+            ctx.violation(f"float32-run-raises:{r.error[0]}", f"single-precision run raised {r.error[:2]}", {"cfg": cfg})
+        else:
+            audit(r, f"float32:{cfg['seed']}", extra={"width": "float32"})
     # metamorphic pairs: same generators, different cadence / final enlargement => same evidence, bit for bit
     npairs = 0
     for r in [r for r in runs if r.error is None and r.cfg["kind"] != "emcee_smc"][: ctx.scale(8, 40)]:
